@@ -75,6 +75,8 @@ static const char* replay_dir = "replay";
 static const char* known_path = NULL;
 static double t_start, t_deadline = 1e18;
 static double hang_s = 60;
+static uint64_t hung_units[64];
+static int nhung_units;
 static int replay_failed = 0;
 static char extra_keys[32][64];
 static char extra_vals[32][1024];
@@ -600,7 +602,7 @@ int main(int argc, char** argv) {
                  (unsigned long long)ws->cur_unit, tl);
       free(tl);
       write_replay_file(path, ws->tag, ws->data, ws->len, msg);
-      int sr = solitary(ws->tag, ws->data, ws->len, hung ? hang_s * 10 : hang_s * 2, lp);
+      int sr = solitary(ws->tag, ws->data, ws->len, hung ? hang_s * 4 : hang_s * 2, lp);
       if (hung) hangs++; else crashes++;
       if (sr != 0) {
         confirmed++;
@@ -612,8 +614,17 @@ int main(int argc, char** argv) {
         snprintf(why, sizeof why, "unit %llu abandoned after a confirmed %s", (unsigned long long)ws->cur_unit,
                  hung ? "hang" : "crash");
         vf_not_exhaustive(why);
+      } else if (hung && ({ int seen = 0; for (int q = 0; q < nhung_units; q++) seen |= hung_units[q] == ws->cur_unit; seen; })) {
+        /* the re-queued unit stopped making progress again: a hang the solitary re-run of its last published case does not show is still a hang */
+        confirmed++;
+        __sync_fetch_and_add(&S->nviol, 1);
+        printf("VIOLATION property=%s replay=%s\n", vf_the_check.property, path);
+        fprintf(stderr, "[%s] %s - second watchdog hit in the same unit (the case passes when re-run alone)\n", vf_the_check.property, msg);
+        if (!first_replay[0]) snprintf(first_replay, sizeof first_replay, "%s", path);
+        vf_not_exhaustive("a unit was abandoned after hanging twice");
       } else if (hung) {
         /* slow, not stuck: give the unit back */
+        if (nhung_units < 64) hung_units[nhung_units++] = ws->cur_unit;
         int rr = S->nretry;
         if (rr < 256) {
           S->retry[rr] = ws->cur_unit;
